@@ -453,6 +453,8 @@ class Exec:
             key = f"{o.cls}.{attr}"
             if key in self.registry:
                 c = self.registry[key]
+                if isinstance(c, FuncV):      # method modelled directly (assumed / verified elsewhere)
+                    return FuncV(lambda ex, s, args, kw, nd, _c=c, _v=v: _c.fn(ex, s, [_v] + list(args), kw, nd), key)
                 if c.is_property:
                     return self.call_contract(st, c, [v], {}, node)
                 return FuncV(lambda ex, s, args, kw, nd, _c=c, _v=v: ex.call_contract(s, _c, [_v] + list(args), kw, nd), key)
